@@ -61,7 +61,16 @@ def evalSuites (args : List String) : String :=
         else if ps == 16 then some (Spec.Enum.pageBody 1 data w)                      -- the specification's BMC
         else some (Spec.CipherSuites.encode ⟨1, (data.drop (ps * w)).take ps⟩)       -- a BMC with another page size
       let (idx, r) := retrieveSupportedCipherSuites (pageOfBody body)
-      s!"{showParse r} idx={showNats "," "-" idx}"
+      -- after a run in which the BMC failed to answer a list index: the SAME connection is asked again and the BMC now answers
+      -- every index — a discovery keeps nothing from an earlier, failed one
+      let again :=
+        if fail.isSome then
+          let body2 : Nat → Option Bytes := fun w =>
+            if ps == 16 then some (Spec.Enum.pageBody 1 data w) else some (Spec.CipherSuites.encode ⟨1, (data.drop (ps * w)).take ps⟩)
+          let (idx2, r2) := retrieveSupportedCipherSuites (pageOfBody body2)
+          s!" again={showParse r2} idx={showNats "," "-" idx2}"
+        else ""
+      s!"{showParse r} idx={showNats "," "-" idx}{again}"
     | _, _, _ => "bad-op"
   match args with
   | [d] => go d "16" "-" "-"
